@@ -107,9 +107,14 @@ def ident_class(ident, owner):
 def build_probe(name, uid, rng, version, helper_uid):
     cp = cparams(cryptographic_algorithm=E.CryptographicAlgorithm.AES, block_cipher_mode=E.BlockCipherMode.ECB)
     if name == 'get':
-        return op_get(uid)
+        # every optional request field is sometimes present: a check made on an option before the access
+        # decision would tell a refused requester something about the object
+        return op_get(uid, fmt=rng.choice((None, None, E.KeyFormatType.RAW, E.KeyFormatType.PKCS_1, E.KeyFormatType.OPAQUE,
+                                           E.KeyFormatType.X_509, E.KeyFormatType.TRANSPARENT_SYMMETRIC_KEY)),
+                      compression=rng.choice((None, None, None, E.KeyCompressionType.EC_PUBLIC_KEY_TYPE_UNCOMPRESSED)))
     if name == 'get_attributes':
-        return op_get_attributes(uid, rng.choice((None, ['Name', 'State'])))
+        return op_get_attributes(uid, rng.choice((None, ['Name', 'State'], ['Cryptographic Usage Mask'], ['Object Type'],
+                                                  ['Certificate Type', 'Digest'], ['x-custom'], ['Sensitive', 'Object Group'])))
     if name == 'get_attribute_list':
         return op_get_attribute_list(uid)
     if name == 'activate':
